@@ -20,6 +20,29 @@ REPLAY_DIR = os.path.join(_OUT, "replays")
 FINDINGS_FILE = os.path.join(VERIF, "known_findings.json")
 
 
+def names_in(text, names):
+    """The known names occurring in a report text, as whole words, longest match first ('A => B (2)' is not also 'A => B').
+    Reports are read this way - not by the library's present wording - so that a reworded message is not mistaken for a wrong report."""
+    text = text or ""
+    found, covered = [], []
+    for n in sorted({str(x) for x in names}, key=len, reverse=True):
+        start, hit = 0, False
+        while n:
+            i = text.find(n, start)
+            if i < 0:
+                break
+            j = i + len(n)
+            left_ok = i == 0 or not (text[i - 1].isalnum() or text[i - 1] == "_")
+            right_ok = j == len(text) or not (text[j].isalnum() or text[j] == "_")
+            if left_ok and right_ok and not any(a <= i and j <= b for a, b in covered):
+                covered.append((i, j))
+                hit = True
+            start = i + 1
+        if hit:
+            found.append(n)
+    return found
+
+
 class Machinery(Exception):
     """The verification machinery itself failed (exit 2) - not a property violation."""
 
